@@ -126,3 +126,25 @@ Theorem converged_reload_equiv : forall b0 l0 s,
     forall q, bl_exists (parse_bytes file (mk_bl [] [] (bw b0))) q = bl_exists (s_mem s) q.
 Proof. exact converged_reload_equiv_lemma. Qed.
 Print Assumptions converged_reload_equiv.
+
+(* the background re-read of the directory (refreshRemote): harmless while nothing is in
+   flight ... *)
+Theorem refresh_idle : forall w v ex wi b,
+  bw b = w -> Permutation ex (bm b) -> Permutation wi (bwild b) ->
+  Forall (good_entry w) (entries_of ex wi) ->
+  parse_bytes (snap_bytes (mk_snap v ex wi)) b = b.
+Proof. exact refresh_idle_lemma. Qed.
+Print Assumptions refresh_idle.
+
+(* ... but between a Remove's mutation and its persist() it breaks convergence: refuted —
+   finding blocklist-refresh-readds-removed *)
+Theorem refresh_convergence_refuted :
+  let x := [120; 46; 116; 101; 115; 116; 46] in
+  let s0 := mk_sys (mk_bl [x] [] []) 1 1 (Some (lines_bytes [header; x])) [] in
+  let s1 := snd (sys_mutate (OpRemove x) [] [] s0) in
+  let s3 := sys_persist 0 (sys_refresh s1) in
+  s_pending s3 = [] /\ s_last s3 = s_version s3 /\
+  s_local s3 = Some (lines_bytes [header]) /\ bm (s_mem s3) = [x] /\
+  bm (s_mem (sys_persist 0 s1)) = [] /\ s_local (sys_persist 0 s1) = Some (lines_bytes [header]).
+Proof. exact refresh_convergence_refuted_lemma. Qed.
+Print Assumptions refresh_convergence_refuted.
